@@ -36,7 +36,7 @@ def _tag(emb, r):
 
 
 def _apply(emb, ra, rb, op, arg):
-    from frame.geometry.geometry import Point
+    from frame.geometry.geometry import Point, Rectangle
     if op == "area_overlap":
         v = ra.area_overlap(rb)
         q = emb.back_area_f(v)
@@ -53,6 +53,19 @@ def _apply(emb, ra, rb, op, arg):
         return int(bool(ra.is_inside(rb)))
     if op == "touches":
         return int(bool(ra.touches(rb)))
+    if op == "touches_tol":
+        # a design with a coarse distance tolerance (arg[0] half lattice units), set through the public API and put back
+        from fractions import Fraction as F
+        saved = (Rectangle.distance_epsilon(), Rectangle.area_epsilon())
+        Rectangle.set_epsilon(float(emb.length(F(arg[0], 2))), saved[1])
+        try:
+            return int(bool(ra.touches(rb)))
+        finally:
+            Rectangle.set_epsilon(*saved)
+    if op == "is_inside_bb":
+        a, b = ra.bounding_box, rb.bounding_box
+        return [int(bool(ra.is_inside(rb))),
+                int(a.ll.x >= b.ll.x and a.ll.y >= b.ll.y and a.ur.x <= b.ur.x and a.ur.y <= b.ur.y)]
     if op == "eq":
         return int(bool(ra == rb))
     if op == "duplicate":
@@ -146,8 +159,16 @@ def random_cases(rng: random.Random, n: int) -> list[dict]:
             a = rrect()
             # b derived from a so that touching / nested / crossing configurations are frequent
             b = rrect()
-            mode = rng.randrange(5)
-            if mode == 0:
+            mode = rng.randrange(7)
+            if mode >= 5:
+                # diagonal neighbours: b beyond a corner of a with small gaps (0..4 units) on BOTH axes
+                gx, gy = rng.randint(0, 4), rng.randint(0, 4)
+                if mode == 5:
+                    b = [a[2] + gx, a[3] + gy, a[2] + gx + 2 * rng.randint(1, 9), a[3] + gy + 2 * rng.randint(1, 9)]
+                else:   # nested, flush with one or two sides of a
+                    if a[2] - a[0] > 6 and a[3] - a[1] > 6:
+                        b, a = list(a), [a[2] - 2 * rng.randint(1, 2), a[1] + 2 * rng.randint(0, 1), a[2], a[3] - 2 * rng.randint(0, 1)]
+            elif mode == 0:
                 b = [a[2], rng.randrange(0, M - 2, 2), a[2] + 2 * rng.randint(1, 40), 0]; b[3] = b[1] + 2 * rng.randint(1, 40)
             elif mode == 1:
                 b = [a[0], a[1], a[2], a[3]]
@@ -157,7 +178,8 @@ def random_cases(rng: random.Random, n: int) -> list[dict]:
                 b = [a[2], a[3], a[2] + 2 * rng.randint(1, 9), a[3] + 2 * rng.randint(1, 9)]
             ta = a + ["g", rng.randint(0, 1), rng.randint(0, 1)]
             tb = b + [rng.choice("gr"), 0, 0]
-            ev = [{"op": o, "arg": []} for o in ("area_overlap", "overlap", "mul", "is_inside", "touches", "eq")]
+            ev = [{"op": o, "arg": []} for o in ("area_overlap", "overlap", "mul", "is_inside", "touches", "eq", "is_inside_bb")]
+            ev += [{"op": "touches_tol", "arg": [e2]} for e2 in rng.sample([1, 3, 5, 7, 9], 2)]
             cases.append({"kind": "pair", "a": ta, "b": tb, "events": ev})
         else:
             a = rrect()
